@@ -10,7 +10,7 @@ LEVEL = "exploration"
 RULE = ("Hypothesis-generated sequences of 1..30 operations on one Module or one Bundle: setattr(name, value), add(value), "
         "add(value, name=), re-adding an attribute under its own name, assigning an already-held object under a second name (which moves it), assigning a held object to another module too and handing it back by re-adding it, get(name), attribute read, and negative operations (reserved "
         "names, non-HDL values, delattr, sub-classing, add with both / neither name, additions after elaboration), names drawn from "
-        "{a,b,c,d,e}, values of every attribute kind (signal, signal with a direction but no port visibility, each port direction, "
+        "{a,b,c,d,e} (add() also: _a, _b), values of every attribute kind (signal, signal with a direction but no port visibility, each port direction, "
         "instance, array, instance bundle - of port-less cells - and bundle instance; for Bundles: signal, bundle instance). After "
         "every step: namespace == model; each per-kind view holds exactly the model's entries of its kind; get(), attribute access and "
         "the views return the same object; a signal is in `ports` iff it has port visibility; the object reports the module as parent; "
@@ -102,7 +102,7 @@ def invariant(h, obj, modelmap, is_module, step, out, lent=()):
         if obj.get(k) is not o:
             out.append(("get_other_object", "after step %d: get(%r) is not the assigned object" % (step, k)))
         try:
-            if getattr(obj, k) is not o:
+            if not k.startswith("_") and getattr(obj, k) is not o:  # (underscore names are private Python attributes for getattr / setattr)
                 out.append(("getattr_other_object", "after step %d: attribute %r is not the assigned object" % (step, k)))
         except Exception as e:
             out.append(("getattr_raises", "after step %d: attribute %r raised %r" % (step, k, e)))
@@ -268,8 +268,10 @@ def run_case(case):
                 out.append(("addition_after_elaboration:" + how, "%s after elaboration was accepted" % how))
             except Exception:
                 pass
-        # class-style definition of the same final content
+        # class-style definition of the same final content (a class body cannot give underscore names: those are temporaries)
         try:
+            if any(k.startswith("_") for k in modelmap):
+                raise StopIteration
             attrs = {}
             for k, (kind, o) in modelmap.items():
                 attrs[k] = mk.make(kind)
@@ -287,20 +289,26 @@ def run_case(case):
                     or sorted(i.name for i in a.instances) != sorted(i.name for i in b.instances)):
                 out.append(("class_style_differs", "class-style definition exports %s / %s, procedural %s / %s" % (
                     sorted(s.name for s in b.signals), sorted(i.name for i in b.instances), sorted(s.name for s in a.signals), sorted(i.name for i in a.instances))))
+        except StopIteration:
+            notes.append("class_style_skipped_underscore_name")
         except Exception as e:
             out.append(("class_style_raises:%s" % type(e).__name__, str(e)[-200:]))
     else:
         # Bundle: class-style equivalence of the final content, and use inside a module
         try:
-            attrs = {k: mk.make(kind) for k, (kind, o) in modelmap.items()}
-            attrs["_tmp_sig"] = mk.make("signal")
-            attrs["_tmp_sub"] = mk.make("bsub")
-            attrs["_tmp_n"] = 3
-            cb = h.bundle(type("EditB", (), attrs))
-            if set(cb.namespace) != set(modelmap):
-                out.append(("class_style_namespace", "class-style bundle has names %s, expected %s" % (sorted(cb.namespace), sorted(modelmap))))
-            if set(cb.signals) != set(obj.signals) or set(cb.bundles) != set(obj.bundles):
-                out.append(("class_style_differs", "class-style bundle has %s/%s, procedural %s/%s" % (sorted(cb.signals), sorted(cb.bundles), sorted(obj.signals), sorted(obj.bundles))))
+            if any(k.startswith("_") for k in modelmap):
+                notes.append("class_style_skipped_underscore_name")
+                attrs = None
+            else:
+                attrs = {k: mk.make(kind) for k, (kind, o) in modelmap.items()}
+                attrs["_tmp_sig"] = mk.make("signal")
+                attrs["_tmp_sub"] = mk.make("bsub")
+                attrs["_tmp_n"] = 3
+                cb = h.bundle(type("EditB", (), attrs))
+                if set(cb.namespace) != set(modelmap):
+                    out.append(("class_style_namespace", "class-style bundle has names %s, expected %s" % (sorted(cb.namespace), sorted(modelmap))))
+                if set(cb.signals) != set(obj.signals) or set(cb.bundles) != set(obj.bundles):
+                    out.append(("class_style_differs", "class-style bundle has %s/%s, procedural %s/%s" % (sorted(cb.signals), sorted(cb.bundles), sorted(obj.signals), sorted(obj.bundles))))
             m = h.Module(name="UsesB")
             m.add(obj(port=True), name="p")
             pkg = h.to_proto(m)
@@ -347,8 +355,9 @@ def shard(idx, n, tier):
         kind = st.sampled_from(kinds)
         banned = ["ports", "signals", "instances", "instarrays", "instbundles", "bundles", "literals", "props", "namespace", "add", "get"] \
             if target == "module" else ["signals", "bundles", "namespace"]
+        uname = st.sampled_from(NAMES + NAMES + ["_a", "_b"])  # add() may give a leading-underscore name, setattr cannot
         pos = st.one_of(st.tuples(st.just("setattr"), name, kind), st.tuples(st.just("setattr"), name, kind),
-                        st.tuples(st.just("add"), name, kind), st.tuples(st.just("add_name"), name, kind),
+                        st.tuples(st.just("add"), uname, kind), st.tuples(st.just("add_name"), uname, kind),
                         st.tuples(st.just("readd"), name), st.tuples(st.just("get"), name), st.tuples(st.just("alias"), name, name), st.tuples(st.just("lend"), name))
         neg = st.one_of(st.tuples(st.just("neg"), st.just("reserved"), st.sampled_from(banned)),
                         st.tuples(st.just("neg"), st.just("nonhdl"), st.sampled_from(["int", "str", "module", "list", "none", "extmod", "call"])),
